@@ -156,7 +156,7 @@ static int run_job(job_t *J)
     vrt_log_enable(1);
     PG(gstrf)(&o, &AC, perm_r, &L, &U, &G, &info);
     vrt_log_enable(0); vrt_perturb(0, 0);
-    thr_after = vrt_thread_count();
+    thr_after = vrt_thread_count_until(thr_before);
 
     f = fopen(J->out, "w"); if (!f) { perror(J->out); return 3; }
     fprintf(f, "{\"e\":\"Meta\",\"id\":\"%s\",\"prec\":\"%s\",\"n\":%ld,\"P\":%d,\"info\":%ld,\"overflow\":%d,\"idle\":%ld,\"lwork\":%ld,\"refact\":%d",
